@@ -67,6 +67,11 @@ NATIVE = {
          "Bag of range N filled with all sequences of length <= 2 over {0.5, 2.0, inf, -inf, nan, -3.0} plus structural variants; == and != against copies, one-datum differences and non-Bag operands"),
     ],
     "C06": [
+        (f"C06:accessors-{K}", f"histogrammar.primitives.{_NP_MOD[K]}.{K}.children", "bounded:read-accessors-leave-the-aggregator-unchanged",
+         "every public property and every public method with at most two positional arguments (mutators by design - fill*, specialize, plotting, file output - excluded), on instances filled with 4 data (incl. NaN) for every child kind, called with probe arguments from {0.5, 1.5, 'a', 'zz', 0, 1, None, True} and (probe, Count()) pairs: the aggregator's JSON and the JSON of aggregators passed as arguments are unchanged (calls that raise included)")
+        for K in _NP_CLASSES
+    ]
+    + [
         ("C06:Bag.json", "histogrammar.primitives.bag.Bag.toJsonFragment", "bounded:frame",
          "toJson on Bags of range N / S / N2 leaves the Bag unchanged"),
         ("C06:Bag.__eq__", "histogrammar.primitives.bag.Bag.__eq__", "bounded:frame",
